@@ -314,8 +314,9 @@ def one_case(ctx, bct, W, dtype, fam, lines, pend, malformed=False, with_dist=Tr
             except Timeout:
                 ctx.fail('distance:timeout', 'a distance routine did not terminate', case)
     rows = model_rows(W)
-    lines.append('gc ' + enc_mat(rows, enc_zbig)); pend.append(('gc', case, (comps, sz), err))
-    lines.append('noc ' + enc_mat(rows, enc_zbig)); pend.append(('noc', case, noc, nerr))
+    mcase = tie_variants(dict(case), since_case=True)      # input-representation layer: the model comparison is batched and comes later
+    lines.append('gc ' + enc_mat(rows, enc_zbig)); pend.append(('gc', mcase, (comps, sz), err))
+    lines.append('noc ' + enc_mat(rows, enc_zbig)); pend.append(('noc', mcase, noc, nerr))
 
 
 def run(ctx):
